@@ -21,6 +21,8 @@ CHECKS = {
          "generated-input search over all exported functions and degenerate placement families with closed-form membership oracles; two open known findings (disk_to_disk, circle functions)"),
  "C11": ("property-based testing (Hypothesis): same cases; certified reference GJK interval (convex pairs), closed forms (line/plane pairs), exhaustive 1-D search (circle); epsilon bands measured and excluded",
          "generated-input search; a violation always carries a closer pair of points; three open known findings (disk_to_disk, line_segment_to_circle, line_to_circle)"),
+ "C13": ("property-based testing (Hypothesis): batches of points constructed at guaranteed depth / exact outside distance k*1e-9*L relative to closed-form reference shapes; cross-checks with point_to_<shape> and support functions",
+         "generated-input search with constructed ground truth on both sides of the boundary; held on everything explored"),
  "C14": ("model-based testing: Hypothesis-generated update_pose/query histories vs a freshly constructed collider at the last pose",
          "generated operation sequences (poses as fresh arrays or stack items) against a fresh-object oracle after every query; held on everything explored"),
  "C05": ("model-based testing: Hypothesis-generated insertion/query histories vs list model with brute-force overlap; jit and boundscheck modes",
